@@ -1009,7 +1009,8 @@ class Interp:
             rvr = self.resolve(st, rv) if rv is not None else ZST()
             vs = self.enum_variants(ret_ty)
             adt = self.T[ret_ty].get('adt')
-            info = {'k': 'ret', 'val': rvr}
+            info = {'k': 'ret', 'val': rvr,
+                    'heap': {k: self.resolve(st, v) for k, v in st.heap.items() if k[0] == 's'}}
             if self.ret_refine and vs and adt in ('std::result::Result', 'std::option::Option'):
                 idx = self.variant_of(st, rvr, [x['name'] for x in vs], adt)
                 info['variant'] = vs[idx]['name']
